@@ -105,8 +105,8 @@ impl Prop for C17 {
     fn rule(&self) -> String {
         "6 programs of 3-4 deliberately unformatted top-level items (struct, fn with 3 statements, const, enum, impl, over-long \
          static) x LF/CRLF x EVERY single range [lo,hi] over the grid 0..lines+2 (incl. inverted and past-the-end) and the \
-         empty selection on all programs, EVERY pair of ranges on the two smallest programs (thorough: all programs, triples \
-         on the smallest) x configurations {default, brace_style=AlwaysNextLine, blank_lines_upper_bound=0, error flags on} \
+         empty selection on all programs, EVERY pair of ranges on the two smallest programs (thorough: all programs), EVERY ordered triple of non-empty \
+         ranges over 1..lines on the smallest program x configurations {default, brace_style=AlwaysNextLine, blank_lines_upper_bound=0, error flags on} \
          x widths {40,100} (every width on the smallest program, singles). Non-trivial = the selection is a proper, non-empty \
          subset of the lines and some unselected item is unformatted; distinct = distinct (input, selection, config)."
             .into()
@@ -144,6 +144,19 @@ impl Prop for C17 {
                             extra: json!({"mode": "single", "lo": lo, "nlines": nlines, "sweep": pi == 0 && ci == 0 && !crlf}),
                         });
                     }
+                    // triples on the smallest program, default configuration: one unit per first range
+                    if pi == 0 && ci == 0 && !crlf {
+                        for lo in 1..=nlines {
+                            for hi in lo..=nlines {
+                                units.push(Unit {
+                                    key: format!("{name}/triple/{lo}-{hi}"),
+                                    text: t.clone(),
+                                    cfg: cfg.clone(),
+                                    extra: json!({"mode": "triple", "lo": lo, "hi": hi, "nlines": nlines}),
+                                });
+                            }
+                        }
+                    }
                     // pairs: one unit per first range
                     if (thorough || pi < 2) && !crlf && (ci == 0 || thorough) {
                         for lo in 0..=nlines + 2 {
@@ -170,7 +183,9 @@ impl Prop for C17 {
             return;
         };
         let n = u.extra["nlines"].as_u64().unwrap() as usize;
-        let widths: Vec<usize> = if u.extra["sweep"].as_bool().unwrap_or(false) {
+        let widths: Vec<usize> = if u.extra["mode"] == "triple" {
+            vec![100]
+        } else if u.extra["sweep"].as_bool().unwrap_or(false) {
             super::widths_for(&u.cfg, tier)
         } else {
             vec![40, 100]
@@ -184,6 +199,20 @@ impl Prop for C17 {
                 }
                 if lo == 0 {
                     selections.push(vec![]);
+                }
+            }
+            "triple" => {
+                // every ordered triple of non-empty ranges over 1..=n with this first range
+                let lo = u.extra["lo"].as_u64().unwrap() as usize;
+                let hi = u.extra["hi"].as_u64().unwrap() as usize;
+                for lo2 in 1..=n {
+                    for hi2 in lo2..=n {
+                        for lo3 in 1..=n {
+                            for hi3 in lo3..=n {
+                                selections.push(vec![(lo, hi), (lo2, hi2), (lo3, hi3)]);
+                            }
+                        }
+                    }
                 }
             }
             _ => {
